@@ -115,6 +115,7 @@ package annotations
 //@   ensures r == spec.unwrapAnno(field)
 
 //@ func GetUnwrapField(message *protogen.Message) (info *UnwrapFieldInfo, err error)
+//@   pure
 //@   ensures iff: (err == nil) <==> spec.Rule_unwrap(message)
 //@   ensures none: err == nil ==> ((info == nil) <==> spec.noUnwrap(message))
 //@   ensures some: err == nil && info != nil ==> member(message.Fields, info.Field) && spec.unwrapAnno(info.Field) && (info.IsRootUnwrap <==> len(message.Fields) == 1) && (info.IsMapField <==> info.Field.Desc.IsMap())
